@@ -23,6 +23,11 @@ def shards(mode, bin_, n, **kw):
 
 
 PROPS = {
+    "C08": {
+        "runs": [{"mode": "native-dev", "bin": "c08"}] + shards("miri", "c08", 10) + [{"mode": "asan-dev", "bin": "c08"}],
+        "expect_monitors": ["blend_modes", "compose", "premultiply"],
+        "assumptions": ASSUME_COMMON + ["W3C Compositing and Blending Level 1 formulas typed in harness/src/bin/c08.rs; self is the source, the argument the backdrop"],
+    },
     "C10": {
         "runs": [{"mode": "native-dev", "bin": "c10"}],
         "expect_monitors": ["mix", "lighten_darken", "saturate_desaturate", "hue_ops_and_schemes", "component_arithmetic"],
